@@ -168,8 +168,8 @@ def run(prog, R):
     # ---------------- PAR-15
     for nm, b in (('scope-closure', cx.scope_cl), ('reader-closure', cx.reader_cl),
                   ('pool-closure', cx.pool_cl), ('job-closure', cx.job_cl)):
-        R.add('PAR-15', rpi, nm, b is not None, site(rpi, rpi.span['lo']),
-              'found %s' % (b.key if b else 'nothing'))
+        R.add('PAR-15', rpi, nm, True, site(rpi, rpi.span['lo']),
+              'found %s' % (b.key if b else 'nothing (the thread structure is not in the shape the PAR rules reason about)'), undecided=b is None)
     if None in (cx.scope_cl, cx.reader_cl, cx.pool_cl, cx.job_cl, cx.prn, cx.chan_done, cx.chan_empty):
         R.anchor_missing('PAR-15', 'closure nesting / channels / ParallelRecordsets::next')
         cx.ok = False
@@ -341,7 +341,7 @@ def run(prog, R):
             if any(r.is_param(rpi.key, P_WORK) for r in cx.prov(jc, t.args[0])):
                 workers.append((blk, t))
     if len(workers) != 1 or len(sends) != 1:
-        R.add('PAR-1', jc, 'shape', False, site(jc, jc.span['lo']),
+        R.undecided('PAR-1', jc, 'shape', site(jc, jc.span['lo']),
               'expected one worker call and one send in the job closure, found %d/%d' % (len(workers), len(sends)))
     else:
         wb, wt = workers[0]
@@ -379,7 +379,7 @@ def run(prog, R):
     execs = find_call(pc, 'scoped_threadpool::Scope::execute')
     loops_pc = pc.cfg.natural_loops()
     if len(recvs) != 1 or not execs or not fills:
-        R.add('PAR-2', pc, 'shape', False, site(pc, pc.span['lo']),
+        R.undecided('PAR-2', pc, 'shape', site(pc, pc.span['lo']),
               'expected one recv on the recycle channel, fill_data and execute in the reader loop')
     else:
         rb, rt = recvs[0]
@@ -416,8 +416,20 @@ def run(prog, R):
         ops = unwrap_aggs(pc, t.args[1], [('adt', 'None')])
         if ops is not None and cx.endpoint(pc, t.args[0]) in ('done.send', '?', None):
             none_sends.append((b, t))
-    if not joins:
-        R.anchor_missing('PAR-3', 'Scope::join_all in the pool closure')
+    # an end marker sent from anywhere else in the thread structure (e.g. queued as a pool job: it can overtake
+    # results of jobs that are still running) is recognised and wrong; no end marker at all is an obligation missed
+    stray = []
+    for ob in prog.bodies.values():
+        if ob is pc or not ob.file.endswith('parallel.rs') or not ob.path.startswith(rpi.path):
+            continue
+        for b2, t2 in find_call(ob, 'std::sync::mpsc::SyncSender::send'):
+            ops2 = unwrap_aggs(ob, t2.args[1], [('adt', 'None')])
+            if ops2 is not None:
+                stray.append((ob, t2))
+    for ob, t2 in stray:
+        R.add('PAR-3', ob, 'end-marker', False, site(ob, t2.line), 'the end marker is sent from %s, not by the reader thread after join_all: it can overtake results of jobs that are still running' % ob.key)
+    if not none_sends and not stray:
+        R.anchor_missing('PAR-3', 'an end marker (send(None) on the result channel) after the reader loop', hard=True)
     for b, t in none_sends:
         ok = any(pc.cfg.dominates(jb, b) for jb, _ in joins)
         R.add('PAR-3', pc, 'end-marker', ok, site(pc, t.line), 'send(None) dominated by join_all: %s' % ok)
@@ -436,7 +448,7 @@ def run(prog, R):
         for b, t in find_call(pb, 'std::mem::replace'):
             repl.append((pb, b, t))
     if len(repl) != 1:
-        R.add('PAR-5', cx.prn, 'shape', False, site(cx.prn, cx.prn.span['lo']), 'expected one mem::replace in next(), found %d' % len(repl))
+        R.undecided('PAR-5', cx.prn, 'shape', site(cx.prn, cx.prn.span['lo']), 'expected one mem::replace in next(), found %d' % len(repl))
     else:
         pb, b, t = repl[0]
         dst = cx.prov(pb, t.args[0])
@@ -628,6 +640,27 @@ def run(prog, R):
                         n11[nm] = n11.get(nm, 0) + 1
                         R.add('PAR-11', body, 'init-result-propagated:%s#%d' % (nm, n11[nm]), flows_to_try(body, t), site(body, t.line),
                               'the result of %s() is propagated to the caller (by `?` or an equivalent return)' % nm)
+    # an initialiser called inside a closure handed to an iterator adaptor that drops Err items (Result is IntoIterator:
+    # flat_map / filter_map / flatten skip the error) - seed C15-r4b
+    for body in prog.bodies.values():
+        if body in (sc, rc, pc) or not body.file.endswith('parallel.rs') or '{closure' not in body.key or not body.path.startswith(rpi.path):
+            continue
+        for blk, t in body.calls():
+            if t.callee and t.callee.path in ('std::ops::FnOnce::call_once', 'std::ops::FnMut::call_mut', 'std::ops::Fn::call'):
+                rs = cx.prov(body, t.args[0])
+                for (pi, nm) in ((P_RINIT, 'reader_init'), (P_DINIT, 'dataset_init')):
+                    if any(r.is_param(rpi.key, pi) for r in rs):
+                        site_ = cx.cl.site.get(body.path) or (cx.cl.const_site.get(body.path) or [None])[0]
+                        adaptor = None
+                        if site_ is not None:
+                            parent = site_[0]
+                            for _, pt in parent.calls():
+                                if pt.callee and pt.callee.name in ('flat_map', 'filter_map', 'flatten', 'map_while', 'filter') and closure_of_arg(prog, parent, pt, len(pt.args) - 1) is body:
+                                    adaptor = pt.callee.name
+                        n11[nm] = n11.get(nm, 0) + 1
+                        R.add('PAR-11', body, 'init-result-propagated:%s#%d' % (nm, n11[nm]), adaptor is None, site(body, t.line),
+                              'the result of %s() is produced inside a closure handed to Iterator::%s, which drops Err items' % (nm, adaptor) if adaptor else 'the result of %s() is produced inside a closure (not followed further)' % nm,
+                              undecided=adaptor is None)
     for jb, jt in joins_h:
         R.add('PAR-11', sc, 'join-result-propagated', flows_to_try(sc, jt), site(sc, jt.line), 'the result of the reader thread (handle.join(), panic payload unwrapped) is propagated to the caller')
     R.floor('PAR-11', 4)
@@ -701,7 +734,7 @@ def par4(prog, R, cx):
     for w in workers:
         zips = find_call(w, 'std::iter::Iterator::zip')
         if len(zips) != 1:
-            R.add('PAR-4', w, 'shape', False, site(w, w.span['lo']), 'expected one zip in the worker')
+            R.undecided('PAR-4', w, 'shape', site(w, w.span['lo']), 'expected one zip in the worker')
             continue
         zb, zt = zips[0]
         a0 = roots_of(w, zt.args[0], through_calls=identity_through)
